@@ -837,7 +837,7 @@ class HelpFamily(SessionFamily):
         d = ctx.specdir('mc')
         cat = os.path.join(ROOT, 'catalog', 'argparse.ndjson')
         ctx.vh('decls', '-trees', cat, '-decls', os.path.join(d, 'catalog_decls.ndjson'))
-        decls = [15, 16, 19, 9, 3, 12] if th else [15, 16, 19]
+        decls = [15, 16, 19, 18, 9, 3, 12] if th else [15, 16, 19, 18]
         mw = 300 if th else 120
         cfg = ('SPECIFICATION MSpec\nCONSTANTS\n  Defects = {}\n  DeclIds = {%s}\n  MaxWidth = %d\n  Emit = TRUE\nINVARIANTS Lay MEmit\nCHECK_DEADLOCK FALSE\n'
                % (', '.join(map(str, decls)), mw))
@@ -855,7 +855,19 @@ class HelpFamily(SessionFamily):
                 e = dict(sc); e['kind'] = 'man'; extra.append(e)
             if sc['width'] % 5 == 1:
                 e = dict(sc); e['kind'] = 'rehelp'; extra.append(e)
-        return states, gen, (scns.tolist() if isinstance(scns, ScnList) else scns) + extra, d, dict(module='MC_Help', decls=decls, widths='0..%d' % mw)
+        # the same parser first parsed a longer chain: every pair (chain, proper extension of it) of one declaration, at two widths
+        scl = scns.tolist() if isinstance(scns, ScnList) else scns
+        chains = {}
+        for sc in scl:
+            if sc['width'] == 80:
+                chains.setdefault((sc['decl'], tuple(sc['popts'])), []).append(sc['words'])
+        for (decl, popts), ws in chains.items():
+            for a in ws:
+                for b in ws:
+                    if len(b) > len(a) and b[:len(a)] == a:
+                        for w in (80, 30):
+                            extra.append({'fam': 'help', 'decl': decl, 'popts': list(popts), 'words': a, 'preWords': b, 'width': w, 'kind': 'help', 'repeat': 1, 'tags': ['mc', 'pre']})
+        return states, gen, scl + extra, d, dict(module='MC_Help', decls=decls, widths='0..%d' % mw)
 
     def random_part(self, ctx, prop, kind, repeat=1):
         nt, per = (150, 30) if ctx.tier == 'quick' else (4000, 40)
